@@ -48,38 +48,62 @@ def t14 : State (Fin 4) := { t13 with est := upd t13.est 0 (upd (t13.est 0) (t13
                                        round := upd t13.round 0 (t13.round 0 + 1) }
 def t15 := cast t14 m7
 
-theorem r1 : Reachable vs fork4 t1 :=
-  .step _ _ .init (Step.prevote t0 0 1 (by decide) (by decide) (by intro q hq; simp [t0, State.init] at hq))
+theorem st1 : Step vs fork4 t0 t1 :=
+  Step.prevote t0 0 1 (by decide) (by decide) (by intro q hq; simp [t0, State.init] at hq)
+theorem r1 : Reachable vs fork4 t1 := .step _ _ .init st1
 
-theorem r2 : Reachable vs fork4 t2 :=
-  .step _ _ r1 (Step.prevote t1 1 1 (by decide) (by decide) (by intro q hq; simp [t1, t0, State.init, Gossamer.C22.cast] at hq))
-theorem r3 : Reachable vs fork4 t3 := .step _ _ r2 (Step.byzCast t2 m3 (by decide))
-theorem r4 : Reachable vs fork4 t4 := .step _ _ r3 (Step.deliver t3 m2 0 (by decide))
-theorem r5 : Reachable vs fork4 t5 := .step _ _ r4 (Step.deliver t4 m3 0 (by decide))
-theorem r6 : Reachable vs fork4 t6 := .step _ _ r5 (Step.deliver t5 m1 1 (by decide))
-theorem r7 : Reachable vs fork4 t7 := .step _ _ r6 (Step.deliver t6 m3 1 (by decide))
-theorem r8 : Reachable vs fork4 t8 :=
-  .step _ _ r7 (Step.precommit t7 0 1 (by decide) (by decide) (by decide)
+theorem st2 : Step vs fork4 t1 t2 :=
+  Step.prevote t1 1 1 (by decide) (by decide) (by intro q hq; simp [t1, t0, State.init, Gossamer.C22.cast] at hq)
+theorem r2 : Reachable vs fork4 t2 := .step _ _ r1 st2
+theorem st3 : Step vs fork4 t2 t3 :=
+  Step.byzCast t2 m3 (by decide)
+theorem r3 : Reachable vs fork4 t3 := .step _ _ r2 st3
+theorem st4 : Step vs fork4 t3 t4 :=
+  Step.deliver t3 m2 0 (by decide)
+theorem r4 : Reachable vs fork4 t4 := .step _ _ r3 st4
+theorem st5 : Step vs fork4 t4 t5 :=
+  Step.deliver t4 m3 0 (by decide)
+theorem r5 : Reachable vs fork4 t5 := .step _ _ r4 st5
+theorem st6 : Step vs fork4 t5 t6 :=
+  Step.deliver t5 m1 1 (by decide)
+theorem r6 : Reachable vs fork4 t6 := .step _ _ r5 st6
+theorem st7 : Step vs fork4 t6 t7 :=
+  Step.deliver t6 m3 1 (by decide)
+theorem r7 : Reachable vs fork4 t7 := .step _ _ r6 st7
+theorem st8 : Step vs fork4 t7 t8 :=
+  Step.precommit t7 0 1 (by decide) (by decide) (by decide)
     (by intro q hq; have h0 : t7.round 0 = 0 := by decide
-        rw [h0] at hq; omega))
-theorem r9 : Reachable vs fork4 t9 :=
-  .step _ _ r8 (Step.precommit t8 1 1 (by decide) (by decide) (by decide)
+        rw [h0] at hq; omega)
+theorem r8 : Reachable vs fork4 t8 := .step _ _ r7 st8
+theorem st9 : Step vs fork4 t8 t9 :=
+  Step.precommit t8 1 1 (by decide) (by decide) (by decide)
     (by intro q hq; have h0 : t8.round 1 = 0 := by decide
-        rw [h0] at hq; omega))
-theorem r10 : Reachable vs fork4 t10 := .step _ _ r9 (Step.byzCast t9 m6 (by decide))
-theorem r11 : Reachable vs fork4 t11 := .step _ _ r10 (Step.deliver t10 m5 0 (by decide))
-theorem r12 : Reachable vs fork4 t12 := .step _ _ r11 (Step.deliver t11 m6 0 (by decide))
-theorem r13 : Reachable vs fork4 t13 := .step _ _ r12 (Step.finalise t12 0 0 1 (by decide) (by decide))
-theorem r14 : Reachable vs fork4 t14 :=
-  .step _ _ r13 (Step.advance t13 0 1 1 (by decide)
-    (closable_of_computed vs fork4 _ _ 1 1 (by decide) (by decide) (by decide)))
-theorem r15 : Reachable vs fork4 t15 :=
-  .step _ _ r14 (Step.prevote t14 0 3 (by decide) (by decide)
+        rw [h0] at hq; omega)
+theorem r9 : Reachable vs fork4 t9 := .step _ _ r8 st9
+theorem st10 : Step vs fork4 t9 t10 :=
+  Step.byzCast t9 m6 (by decide)
+theorem r10 : Reachable vs fork4 t10 := .step _ _ r9 st10
+theorem st11 : Step vs fork4 t10 t11 :=
+  Step.deliver t10 m5 0 (by decide)
+theorem r11 : Reachable vs fork4 t11 := .step _ _ r10 st11
+theorem st12 : Step vs fork4 t11 t12 :=
+  Step.deliver t11 m6 0 (by decide)
+theorem r12 : Reachable vs fork4 t12 := .step _ _ r11 st12
+theorem st13 : Step vs fork4 t12 t13 :=
+  Step.finalise t12 0 0 1 (by decide) (by decide)
+theorem r13 : Reachable vs fork4 t13 := .step _ _ r12 st13
+theorem st14 : Step vs fork4 t13 t14 :=
+  Step.advance t13 0 1 1 (by decide)
+    (closable_of_computed vs fork4 _ _ 1 1 (by decide) (by decide) (by decide))
+theorem r14 : Reachable vs fork4 t14 := .step _ _ r13 st14
+theorem st15 : Step vs fork4 t14 t15 :=
+  Step.prevote t14 0 3 (by decide) (by decide)
     (by intro q hq; have h0 : t14.round 0 = 1 := by decide
         rw [h0] at hq
         have : q = 0 := by omega
         subst this
-        exact ⟨1, by decide, by decide⟩))
+        exact ⟨1, by decide, by decide⟩)
+theorem r15 : Reachable vs fork4 t15 := .step _ _ r14 st15
 
 end Example
 
